@@ -357,15 +357,6 @@ class frame_check_subclass:
     params = dict(widget=Opt(WIDGET))
 
 
-if "urwid/widget/widget.py:Widget.__init__" not in REGISTRY:
-
-    @contract("urwid/widget/widget.py:Widget.__init__", property=(), assumed=True,
-              notes="stores `self.logger = logging.getLogger(<class path>)` and nothing else; logger calls are dropped (DESIGN 2.1), the attribute is never read by verified code")
-    class widget_init:
-        self_shape = Obj(urwid.Widget, {})
-        modifies = ()
-
-
 @contract(FR + "Frame.__init__", property="C08", inline=FINL, replayable=False)
 class frame_init:
     self_shape = FRAME
